@@ -37,6 +37,7 @@ SIM = {
     "r11-quads":   consts(MaxN=8, MaxP=4, MaxD=2, PType=2, PoolS="R11S", PoolP="R11P", PoolO="R11O", PoolG="R11G"),
     "r11-graphs":  consts(MaxN=8, MaxP=4, MaxD=2, PType=3, PoolS="R11S", PoolP="R11P", PoolO="R11O", PoolG="R11G"),
     # dense universes: pools so small that consecutive statements share terms all the time (elision right after quoted triples, graph names, literals)
+    "r11-dense":   consts(MaxN=8, MaxP=2, MaxD=2, PType=2, PoolS="DenseS", PoolP="DenseP", PoolO="DenseO", PoolG="DenseG"),
     "dense-qt":    consts(MaxN=8, MaxP=2, MaxD=1, PType=1, PoolS="QtS", PoolP="QtP", PoolO="QtO"),
     "dense-qt-q":  consts(MaxN=8, MaxP=2, MaxD=1, PType=2, PoolS="QtS", PoolP="QtP", PoolO="QtO", PoolG="QdG"),
 }
